@@ -2229,7 +2229,15 @@ impl<'a> Socket<'a> {
         }
         if self.remote_win_len != 0 && self.timer.is_zero_window_probe() {
             tcp_trace!("stopping zero-window-probe timer");
-            self.timer.set_for_idle(cx.now(), self.keep_alive);
+            if self.remote_last_seq != self.local_seq_no {
+                // The probe timer may have replaced a running retransmission timer (window
+                // closed by an ACK of only part of the data in flight). The octets still in
+                // flight need that timer back, or their loss would never be noticed.
+                let rto = self.rtte.retransmission_timeout();
+                self.timer.set_for_retransmit(cx.now(), rto);
+            } else {
+                self.timer.set_for_idle(cx.now(), self.keep_alive);
+            }
         }
 
         let payload_len = payload.len();
